@@ -848,6 +848,27 @@ func c03Worker(c *core.Collector, x *Ctx) {
 			}
 			explicitPrior = nil
 		}
+		// near-identical predecessor: the receiver has just parsed the SAME body with one byte different (the next report of the
+		// same alarm, the same list with another count): anything a parser remembers under a key made of some of the fields
+		// and skips re-decoding for is exposed by the neighbour that shares the key and differs elsewhere
+		{
+			lim := min(len(seeds), 6)
+			for i := 0; i < lim; i++ {
+				sd := seeds[i]
+				for pos := 0; pos < len(sd) && pos < 400; pos++ {
+					for _, d := range []byte{0x01, 0x10, 0x80} {
+						if d != 0x01 && (pos*7+int(d))%3 != 0 && !c.Thorough() {
+							continue
+						}
+						q := append([]byte{}, sd...)
+						q[pos] ^= d
+						explicitPrior = [][]byte{q}
+						do(sd, false, "neighbour-then-A")
+					}
+				}
+			}
+			explicitPrior = nil
+		}
 		// TLV sweeps
 		switch t.TypeName {
 		case "T0x0200", "T0x0704":
